@@ -19,6 +19,7 @@ type vCtx struct {
 	EncPk  *Encryptor
 	Dec    *Decryptor
 	Dec2   *Decryptor
+	Eval   *Evaluator
 }
 
 var vParamSets = []ParametersLiteral{
@@ -27,11 +28,30 @@ var vParamSets = []ParametersLiteral{
 	{LogN: 4, Q: []uint64{97, 12289, 193}, P: []uint64{257, 769}, NTTFlag: true},
 	{LogN: 4, Q: []uint64{97, 193}, NTTFlag: false},
 	{LogN: 4, Q: []uint64{97, 12289}, P: []uint64{257}, NTTFlag: false},
+	{LogN: 4, Q: []uint64{97, 12289, 193, 65537}, P: []uint64{257, 769}, NTTFlag: true},
+	{LogN: 4, Q: []uint64{257, 65537}, NTTFlag: true}, // primes just above a power of two
 }
 
-// VerifSetup_Ctx builds the objects of parameter set i natively (keys are allocated, not yet generated).
-func VerifSetup_Ctx(i int) *vCtx {
-	params, err := NewParametersFromLiteral(vParamSets[i])
+// vNativeParamSets mirror the shapes of vParamSets with realistic prime sizes: the native replay of a harness runs on
+// these, so that "small noise" is a meaningful check (with 7-bit primes every value is "small").
+var vNativeParamSets = []ParametersLiteral{
+	{LogN: 4, LogQ: []int{45, 35}, NTTFlag: true},
+	{LogN: 4, LogQ: []int{45, 35}, LogP: []int{40}, NTTFlag: true},
+	{LogN: 4, LogQ: []int{45, 35, 35}, LogP: []int{40, 40}, NTTFlag: true},
+	{LogN: 4, LogQ: []int{45, 35}, NTTFlag: false},
+	{LogN: 4, LogQ: []int{45, 35}, LogP: []int{40}, NTTFlag: false},
+	{LogN: 4, LogQ: []int{45, 35, 35, 35}, LogP: []int{40, 40}, NTTFlag: true},
+	{LogN: 4, Q: []uint64{49719739886171393, 1429365117217}, NTTFlag: true}, // primes in (2^k, 2^k*sqrt2): log2 rounds down
+}
+
+// VerifSetup_Ctx builds the objects of parameter set i natively (keys are allocated, not yet generated);
+// algebraic=true selects the tiny-prime variant used by the symbolic engine.
+func VerifSetup_Ctx(i int, algebraic bool) *vCtx {
+	lit := vNativeParamSets[i]
+	if algebraic {
+		lit = vParamSets[i]
+	}
+	params, err := NewParametersFromLiteral(lit)
 	if err != nil {
 		panic(err)
 	}
@@ -44,6 +64,7 @@ func VerifSetup_Ctx(i int) *vCtx {
 	c.EncPk = NewEncryptor(params, c.Pk)
 	c.Dec = NewDecryptor(params, c.Sk)
 	c.Dec2 = NewDecryptor(params, c.Sk2)
+	c.Eval = NewEvaluator(params, nil)
 	return c
 }
 
